@@ -166,6 +166,27 @@ class LockRule:
                     rep.ok("R-LOCK", key, body.where(bi), "K3: %s() on .%s hands out no &mut and removes nothing" % (meth, fld))
                 else:
                     rep.bad("R-LOCK", "R-LOCK:" + key, body.where(bi), "K3: DashMap::%s on cache .%s: %s" % (meth, fld, "hands out mutable access to / removes cached storage that readers may be looking at" if meth in MUTABLE_HANDOUT else "method outside the audited set {get, contains_key, insert}"))
+        # K5 memo-table ownership: a cache is read and filled only inside its own get-or-compute accessor, so no other
+        # function can observe whether an entry happens to be cached (answers cannot depend on the query history)
+        owners = {}
+        for fid, acc in self.direct.items():
+            body = prog.bodies[fid]
+            root = body.rec.get("root", fid)
+            for fld, meth, bi in acc:
+                if meth in ("new", "default", "with_capacity"):
+                    continue
+                owners.setdefault(fld, {}).setdefault(root, []).append((body, bi, meth))
+        for fld, fs in sorted(owners.items()):
+            accessor = [f for f in fs if self.returns_guard.get(f) == fld]
+            for f, uses in sorted(fs.items()):
+                body, bi, meth = uses[0]
+                key = "K5:.%s accessed in %s" % (fld, mir.strip_generics(f))
+                if f in accessor:
+                    rep.ok("R-LOCK", key, body.where(bi), "K5: the cache's own get-or-compute accessor (%d accesses)" % len(uses))
+                else:
+                    rep.bad("R-LOCK", "R-LOCK:" + key, body.where(bi), "K5: cache .%s is accessed (%s) outside its get-or-compute accessor: the result can depend on whether an entry happens to be cached, i.e. on the query history" % (fld, meth))
+            if not accessor:
+                rep.bad("R-LOCK", "R-LOCK:K5:.%s:no-accessor" % fld, "-", "K5: no single accessor function returns the guard of cache .%s" % fld)
         for body in prog.bodies.values():
             if "units_generated" in body.id:
                 continue
